@@ -83,8 +83,16 @@ PROPS = {
             "HqModel.C18.c18_ids_unique",
         ],
         "parts": [dict(_PART, clauses=["c18."],
-                       tags=["ev", "alloc", "rm", "a2q", "resp", "ran", "queue", "lim", "sched"])],
-        "assumptions": _ASSUMPTIONS,
+                       tags=["ev", "alloc", "rm", "a2q", "resp", "ran", "queue", "lim", "sched"]),
+                  # the feed of the allocation bookkeeping: in the simulated cluster (real job layer, State::process_worker_new /
+                  # process_worker_lost) a third of the workers carry manager info; after every connect and every loss (all reasons)
+                  # the messages the job layer put on the autoalloc service channel are inspected (monitor c18.notify)
+                  {"component": "job", "driver": "hqm-job", "tags": ["ev", "!panic"], "clauses": ["c18."],
+                   "quick": {"cases": 13, "shards": 12, "extra": []}, "thorough": {"cases": 100, "shards": 16, "extra": []}}],
+        "assumptions": _ASSUMPTIONS + [
+            "the theorems take the WorkerConnected / WorkerLost messages as inputs of the autoalloc state machine; that the job layer "
+            "sends one for every connect and every loss of a worker started inside an allocation (State::process_worker_new / "
+            "process_worker_lost -> AutoAllocService) is checked on the simulated cluster by monitor c18.notify, not proved"],
         "trusted_base": _TRUSTED,
     },
 }
